@@ -215,8 +215,27 @@ impl VisitorMut for Norm {
                     TypeInfo::Tuple { parentheses, types }
                 }
             }
-            TypeInfo::Union(u) => wrap(TypeInfo::Union(u.with_leading(None))),
-            TypeInfo::Intersection(u) => wrap(TypeInfo::Intersection(u.with_leading(None))),
+            // unions and intersections are associative: `(A | B) | C` is the type `A | B | C`
+            TypeInfo::Union(u) => {
+                let mut members: Vec<TypeInfo> = Vec::new();
+                for m in u.types().iter() {
+                    match unwrap_marker(m) {
+                        Some(TypeInfo::Union(inner)) => members.extend(inner.types().iter().cloned()),
+                        _ => members.push(m.clone()),
+                    }
+                }
+                wrap(TypeInfo::Union(luau::TypeUnion::new(None, join(members, "|"))))
+            }
+            TypeInfo::Intersection(u) => {
+                let mut members: Vec<TypeInfo> = Vec::new();
+                for m in u.types().iter() {
+                    match unwrap_marker(m) {
+                        Some(TypeInfo::Intersection(inner)) => members.extend(inner.types().iter().cloned()),
+                        _ => members.push(m.clone()),
+                    }
+                }
+                wrap(TypeInfo::Intersection(luau::TypeIntersection::new(None, join(members, "&"))))
+            }
             t @ (TypeInfo::Optional { .. } | TypeInfo::Callback { .. } | TypeInfo::Variadic { .. }) => wrap(t),
             TypeInfo::Table { braces, fields } => {
                 let n = fields.len();
@@ -257,6 +276,29 @@ impl VisitorMut for Norm {
         };
         TokenReference::new(vec![], tok, vec![Token::new(TokenType::spaces(1))])
     }
+}
+
+/// the content of a `⟨ … ⟩` grouping marker put around a compound type
+fn unwrap_marker(t: &luau::TypeInfo) -> Option<&luau::TypeInfo> {
+    if let luau::TypeInfo::Tuple { parentheses, types } = t {
+        if types.len() == 1 && parentheses.tokens().0.token().to_string().starts_with('⟨') {
+            return types.iter().next();
+        }
+    }
+    None
+}
+
+fn join(members: Vec<luau::TypeInfo>, sep: &str) -> Punctuated<luau::TypeInfo> {
+    let n = members.len();
+    let mut p = Punctuated::new();
+    for (i, m) in members.into_iter().enumerate() {
+        if i + 1 == n {
+            p.push(Pair::End(m));
+        } else {
+            p.push(Pair::Punctuated(m, ident(sep)));
+        }
+    }
+    p
 }
 
 pub fn normal_form(ast: Ast) -> String {
